@@ -409,6 +409,10 @@ func (p *Polygon) initEdgesAndIndex() {
 	p.numEdges = 0
 	p.cumulativeEdges = nil
 	if p.IsFull() {
+		// The full polygon has no edges, but it still needs an index so
+		// that it can answer containment queries like any other polygon.
+		p.index = NewShapeIndex()
+		p.index.Add(p)
 		return
 	}
 	const maxLinearSearchLoops = 12 // Based on benchmarks.
@@ -590,7 +594,7 @@ func (p *Polygon) RectBound() Rect { return p.bound }
 func (p *Polygon) ContainsPoint(point Point) bool {
 	// NOTE: A bounds check slows down this function by about 50%. It is
 	// worthwhile only when it might allow us to delay building the index.
-	if !p.index.IsFresh() && !p.bound.ContainsPoint(point) {
+	if (p.index == nil || !p.index.IsFresh()) && !p.bound.ContainsPoint(point) {
 		return false
 	}
 
@@ -612,6 +616,10 @@ func (p *Polygon) ContainsPoint(point Point) bool {
 
 // ContainsCell reports whether the polygon contains the given cell.
 func (p *Polygon) ContainsCell(cell Cell) bool {
+	if p.index == nil {
+		// The zero value is the empty polygon.
+		return false
+	}
 	it := p.index.Iterator()
 	relation := it.LocateCellID(cell.ID())
 
@@ -636,6 +644,10 @@ func (p *Polygon) ContainsCell(cell Cell) bool {
 
 // IntersectsCell reports whether the polygon intersects the given cell.
 func (p *Polygon) IntersectsCell(cell Cell) bool {
+	if p.index == nil {
+		// The zero value is the empty polygon.
+		return false
+	}
 	it := p.index.Iterator()
 	relation := it.LocateCellID(cell.ID())
 
